@@ -53,16 +53,22 @@ def parse_kani(out, names):
         if mc:
             nchecks = int(mc.group(2))
         mt = re.search(r'Verification Time: ([0-9.]+)s', part)
-        cover = re.findall(r'Status: (SATISFIED|UNSATISFIABLE|UNREACHABLE)', part)
+        # only cover! statements of the harness count for the vacuity guard (std code has unreachable checks of its own)
+        cover = re.findall(r'Check \d+: [^\n]*\.cover\.\d+\s*\n\s*- Status: (SATISFIED|UNSATISFIABLE|UNREACHABLE)', part)
         res[name] = {'status': status, 'failed_checks': failed, 'checks': nchecks, 'cbmc_s': float(mt.group(1)) if mt else None,
                      'covers': cover, 'output': part[-3000:]}
     return res
 
 
-def playback(workdir, harness, env, extra=()):
-    """concrete counterexample bytes -> list of little-endian integers (one per kani::any())"""
+def playback(workdir, harness, env, extra=(), tests_out=None):
+    """concrete counterexample bytes -> list of little-endian integers (one per kani::any()); the generated playback
+    unit tests (one per failed check) are appended to tests_out: replay.py runs them natively on the real crate"""
     cmd = ['cargo', 'kani'] + list(extra) + ['--harness', harness, '-Z', 'concrete-playback', '--concrete-playback=print']
     p = subprocess.run(cmd, cwd=workdir, capture_output=True, text=True, env=env)
+    if tests_out is not None:
+        for m in re.finditer(r'```\n(.*?)```', p.stdout, re.S):
+            if 'kani::concrete_playback_run' in m.group(1):
+                tests_out.append(m.group(1))
     vals = []
     for m in re.finditer(r'//\s*(-?\d+)(?:ul|u64|usize)?\s*\n\s*vec!\[([0-9, ]*)\]', p.stdout):
         by = [int(x) for x in m.group(2).split(',') if x.strip()]
@@ -123,8 +129,15 @@ def run_for(prop, tier, workdir):
                 rec.update({k: r[k] for k in ('status', 'failed_checks', 'checks', 'cbmc_s', 'output')})
                 if 'UNSATISFIABLE' in r['covers'] or 'UNREACHABLE' in r['covers']:
                     rec['status'] = 'VACUOUS'   # an assumption excludes everything: never counted
+                if rec['status'] == 'FAILURE' and r['failed_checks'] and all('unwinding assertion' in c for c in r['failed_checks']):
+                    # only the unwinding bound was exceeded (e.g. a body that now loops more often): the bound of this
+                    # harness does not cover the code any more -- undecided, never an alarm
+                    rec['status'] = 'UNWIND-BOUND-EXCEEDED'
                 if rec['status'] == 'FAILURE':
-                    rec['counterexample'] = playback(cwd, h['name'], genv, ['-p', 'calloop'] if g['kind'] == 'incrate' else []) or None
+                    tests = []
+                    rec['counterexample'] = playback(cwd, h['name'], genv, ['-p', 'calloop'] if g['kind'] == 'incrate' else [], tests) or None
+                    rec['playback_tests'] = tests[:4]
+                    rec['hook_file'] = g.get('hook_file', 'src/lib.rs')
             out['harnesses'].append(rec)
         shutil.rmtree(os.path.join(wd, 'target'), ignore_errors=True)
         if g['kind'] == 'incrate':
